@@ -919,3 +919,8 @@ M.contract(P_EQ + ':_EqualityStringMatcher.__init__',
                     self._applier._expected is expected_contents and self._applier._result_for_match.value is True
                     and self._applier._build_result_for_no_match == self._result_for_no_match},
            raises_only=())
+
+
+# Assumed summaries of this module that follow from contracts PROVED for another property (Module.implied_by, ENGINE.md):
+# the refinement obligations are generated by this property's check and the proved contract is re-proved here.
+M.implied_by('exactly_lib.impls.instructions.utils.logic_type_resolving_helper:resolving_helper_for_instruction_env', 'C19')
